@@ -155,7 +155,7 @@ class SimpleHpoaDiseaseLoader(HpoDiseaseLoader):
                 # Several HPOA lines may correspond to a single phenotype feature
                 line_by_phenotype[hpoa.phenotype_term_id].append(hpoa)
             elif hpoa.aspect == Aspect.INHERITANCE:
-                moi.add(hpoa.phenotype_term_id)
+                moi.add(TermId.from_curie(hpoa.phenotype_term_id))
             else:
                 # TODO - handle the remaining aspect lines
                 pass
